@@ -18,6 +18,7 @@ RULE = ("operations: one- and two-qubit parametric built-ins x a parameter-expre
         "assignments of the remaining symbols, free symbols, every split m = m1 + m2; circuits: all 2-operation circuits of a sub-alphabet. "
         "non-trivial = map binds at least one symbol the operation depends on")
 RULE += ' Also: one map object updated in place between binds (every history of 2-3 updates).'
+RULE += ' Round 7: custom gates with sqrt / log / acos entries bound outside the real domain; a circuit followed by a copied / unpickled copy of itself.'
 RULE += ' Round 6: partial maps as defaultdict / Counter / OrderedDict / ChainMap / dict subclass with __missing__; two distinct symbols that print alike in one operation.'
 RULE += ' Round 6: maps whose values mention symbols that are keys too (parameter shift, rescaling, swap, cycle, chain): simultaneous substitution is the reference.'
 RULE += ' Round 5: parameters containing bound variables (Sum index, Integral variable); non-real map values for gate operations.'
@@ -503,7 +504,49 @@ def map_kind_case(case):
     return {"ok": True, "nt": True, "ops": k, "out": case["op"]["k"]}
 
 
-FUNCS = {"map_kinds": map_kind_case, "cross_maps": cross_map_case, "long_circuits": long_circuit_case, "map_histories": map_history_case, "assumption_symbols": assume_case, "operations": op_case, "refusals": refuse_case, "circuits": circuit_case}
+def domain_case(case):
+    """{'def': custom definition name, 'w': wrappers, 'value': number}: a custom gate whose matrix holds sqrt / log / acos of its parameter, bound to a real number OUTSIDE the real domain
+    of that function: bind-then-evaluate is the same (complex) matrix as evaluate-then-substitute - through gate, operation, circuit, wrappers and replace_params"""
+    from orquestra.quantum import circuits as C
+    d = custom_definition(case["def"])
+    v = case["value"]
+    g = d(A)
+    for w in case.get("w", []):
+        g = g.dagger if w == "dagger" else g.controlled(1)
+    q = list(range(g.num_qubits))
+    op = g(*q)
+    want = num(op.gate.matrix.subs({A: v}))
+    k = 0
+    for what, bound in (("gate.bind", lambda: g.bind({A: v})), ("operation.bind", lambda: op.bind({A: v}).gate), ("Circuit.bind", lambda: C.Circuit([op]).bind({A: v}).operations[0].gate),
+                        ("replace_params", lambda: g.replace_params((v,))), ("built with the number", lambda: (lambda h: [h := (h.dagger if w == "dagger" else h.controlled(1)) for w in case.get("w", [])] and h or h)(d(v)))):
+        got = num(bound().matrix)
+        k += 1
+        if got.shape != want.shape or not np.allclose(got, want, atol=1e-10, rtol=0, equal_nan=False):
+            return {"ok": False, "msg": "%s of %s%s at alpha = %r gives another matrix than evaluating symbolically and substituting" % (what, case["def"], case.get("w", []), v),
+                    "expected": str(np.round(want, 6).tolist())[:300], "observed": str(got.tolist())[:300], "sig": "domain:matrix", "ops": k}
+    return {"ok": True, "nt": True, "ops": k, "out": case["def"]}
+
+
+def copies_case(case):
+    """{'how': deepcopy | pickle | add-copy}: the SAME symbols reach one circuit as equal but distinct objects (a copied / unpickled circuit appended to the original): free symbols are
+    reported once each, in first-appearance order, and binding them binds every occurrence"""
+    import copy
+    import pickle
+    from orquestra.quantum import circuits as C
+    c = C.Circuit([C.RX(A)(0), C.CPHASE(A + 2 * B)(1, 0), C.U3(Cc, 0.5, A)(1), custom_definition("custom1p")(B, Cc)(0)])
+    twin = {"deepcopy": lambda: copy.deepcopy(c), "pickle": lambda: pickle.loads(pickle.dumps(c)), "rebuilt": lambda: C.Circuit([C.RX(sympy.Symbol("alpha"))(0), C.RZ(sympy.Symbol("c") * sympy.Symbol("beta"))(1)])}[case["how"]]()
+    both = c + twin
+    fs = list(both.free_symbols)
+    if len(fs) != len(set(fs)) or set(fs) != {A, B, Cc} or len(fs) != 3:
+        return {"ok": False, "msg": "a circuit followed by a %s copy of itself reports the free symbols %s" % (case["how"], fs), "expected": "[alpha, beta, c] once each", "observed": str(fs), "sig": "copies:free-symbols"}
+    for m in ({A: 0.3}, {A: 0.3, B: -1.2}, {A: 0.3, B: -1.2, Cc: 0.7}):
+        b = both.bind(m)
+        if set(b.free_symbols) != {A, B, Cc} - set(m) or len(list(b.free_symbols)) != 3 - len(m):
+            return {"ok": False, "msg": "circuit + %s copy bound with %s reports the free symbols %s" % (case["how"], m, list(b.free_symbols)), "sig": "copies:bound-free-symbols"}
+    return {"ok": True, "nt": True, "ops": 4, "out": case["how"]}
+
+
+FUNCS = {"custom_domains": domain_case, "symbol_copies": copies_case, "map_kinds": map_kind_case, "cross_maps": cross_map_case, "long_circuits": long_circuit_case, "map_histories": map_history_case, "assumption_symbols": assume_case, "operations": op_case, "refusals": refuse_case, "circuits": circuit_case}
 
 
 def op_alphabet(thorough):
@@ -563,6 +606,9 @@ def run(run):
                         desc="circuits of 7 / 40 (thorough 130) operations over 12 symbols named x2, x10, x[3], x[12], beta_2, beta_10 ...: first-appearance order, 19 partial maps, two-step binds"))
     secs.append(Section("assumption_symbols", [{"kind": k} for k in ("plain", "real", "positive", "dummy", "integer")], assume_case, horizon=600, chunk=1,
                         desc="symbols with assumptions / Dummy symbols through gate.bind, operation.bind, Circuit.bind"))
+    secs.append(Section("custom_domains", [{"def": d_, "w": w_, "value": v_} for d_, vals_ in (("custom1s", (-0.3, 1.7, 0.25, -2, 0.0, 1)), ("custom1l", (-0.5, 2.5, 0.5, -3))) for w_ in ([], ["dagger"], ["c1"], ["c1", "dagger"])
+                                            for v_ in vals_], domain_case, horizon=300, desc="custom gates with sqrt / log / acos entries bound to real numbers outside the real domain: the complex matrix of evaluate-then-substitute"))
+    secs.append(Section("symbol_copies", [{"how": h_} for h_ in ("deepcopy", "pickle", "rebuilt")], copies_case, desc="a circuit followed by a deep-copied / unpickled / rebuilt copy of itself: free symbols once each"))
     mk_items = [[[1, "0.3"]], [[0, "0.3"]], [[2, "-1.2"], [3, "0.3"]], [[1, "e"]], [[0, "0"], [1, "0.3"]], []]
     secs.append(Section("map_kinds", [{"op": o, "items": it} for o in hops for it in mk_items], map_kind_case, horizon=300, desc="partial maps given as defaultdict / Counter / OrderedDict / ChainMap / dict subclass "
                         "with __missing__: exactly the items are bound, absent symbols stay free, the mapping is not written to"))
